@@ -159,6 +159,34 @@ def run_case(case):
                 smode = rng.choice(["disk", "cache"] if st._memory_cache is not None else ["disk"])
                 if smode == "disk" and st._memory_cache is not None:
                     st._memory_cache.forget_everything()
+                if rng.random() < 0.5:
+                    # before the new child is made, another function puts the parent-to-be (as it is served now) into a
+                    # partition of its own as a value: an on-disk partition stages its values in a directory of its own
+                    skind = rng.choice(["mem", "disk"])
+                    try:
+                        sgot = ffuncs.stage(cid, j - 1, skind)
+                        out["obs"]["partitions_held_as_a_value_of_another_partition"] += 1
+                        if sorted(sgot.list_keys()) != ["held", "n"]:
+                            fail("key set of the stored partition differs from the overlay of its parents",
+                                 "%s: partition holding level %d as a value lists %s" % (label, j - 1, sorted(sgot.list_keys())))
+                        else:
+                            check_partition(out, fail, sgot.get("held"), overlays[j - 1], label,
+                                            "level %d held as a value of a %s partition" % (j - 1, skind))
+                            stm = ffuncs.stage.memento(cid, j - 1, skind)
+                            if stm is not None:
+                                check_partition(out, fail, plain.read_result(stm).get("held"), overlays[j - 1], label,
+                                                "level %d held as a value of a %s partition, re-read from disk" % (j - 1, skind))
+                    except Exception as e:
+                        fail("call returning a partition raises " + type(e).__name__, "%s holder of level %d: %r" % (label, j - 1, e))
+                        break
+                    if rng.random() < 0.5:
+                        # ... and that holder is forgotten and gone (with its staging directory) before the child is made
+                        import gc
+
+                        ffuncs.stage.forget(cid, j - 1, skind)
+                        sgot = None
+                        gc.collect()
+                        out["obs"]["holders_gone_before_the_next_child_was_made"] += 1
                 try:
                     got = ffuncs.sibling(cid, j, tag)
                 except Exception as e:
@@ -168,7 +196,12 @@ def run_case(case):
                 out["sets"]["provenances"].add("sibling|%s|%s|%s" % (sspec["kind"], smode, bname))
                 what = "second child (keys %s, parent from %s) of level %d" % (sk, smode, j - 1)
                 check_partition(out, fail, got, want, label, what + ", value handed back by the computing call")
-                check_partition(out, fail, ffuncs.sibling(cid, j, tag), want, label, what + ", later call")
+                mark = REC.mark()
+                later = ffuncs.sibling(cid, j, tag)
+                if REC.since(mark):
+                    fail("a partition result was not memoized (body ran again on the next call)",
+                         "%s %s: bodies run again: %s" % (label, what, [e[1] for e in REC.since(mark)]))
+                check_partition(out, fail, later, want, label, what + ", later call")
                 sm = ffuncs.sibling.memento(cid, j, tag)
                 if sm is not None:
                     check_partition(out, fail, plain.read_result(sm), want, label, what + ", re-read from disk")
